@@ -144,21 +144,60 @@ def typed_args(size, px, r0, L0, cast):
         return numpy.int32(size), numpy.float32(px), numpy.float32(r0), numpy.float32(L0)
     if cast == "mixed":      # integer pixel scale with float r0, L0: the case met in practice (pixel_scale=1)
         return size, int(px), r0, L0
+    # Round 5
+    if cast == "npfloat":    # NumPy double scalars (what arithmetic on arrays hands back), size as a 32-bit integer
+        return numpy.int32(size), numpy.float64(px), numpy.float64(r0), numpy.float64(L0)
+    if cast == "zerod":      # 0-d arrays (what numpy.asarray(x), a[i, ...] or a config reader hand back)
+        return size, numpy.array(px), numpy.array(r0), numpy.array(L0)
+    if cast == "f16":        # half precision scalars, smallest integer type for the size
+        return (numpy.int8(size) if size < 100 else numpy.int16(size)), numpy.float16(px), numpy.float16(r0), numpy.float16(L0)
+    if cast == "pxint32":    # 32-bit integer pixel scale and outer scale, float r0
+        return numpy.int16(size), numpy.int32(px), r0, numpy.uint16(L0)
     raise ValueError(cast)
 
 
-def construct(variant, size, par, px, r0, L0, seed, cast=None):
-    """the real object, built through its public constructor with an injected Generator; (obj, kernel record) or (None, exc)"""
+CASTS5 = ("npfloat", "zerod", "f16", "pxint32")
+SEED_KINDS = ("int0", "int", "int>2^32", "int>2^53", "int>2^64", "npint", "seq", "none")
+CALL_FORMS = ("pos", "allkw", "default")
+ENTRIES = ("pkg", "turb")
+
+
+def seed_argument(kind, seed):
+    """what is passed as random_seed for a seed kind (everything numpy.random.default_rng documents), from the integer `seed`"""
+    return {"int0": 0, "int": int(seed), "int>2^32": 2 ** 32 + int(seed), "int>2^53": 2 ** 53 + 1 + 2 * int(seed),
+            "int>2^64": 2 ** 64 + 2 ** 40 * int(seed) + 3, "npint": numpy.int64(seed), "none": None,
+            "seq": numpy.random.SeedSequence(int(seed))}[kind]
+
+
+def construct(variant, size, par, px, r0, L0, seed, cast=None, how=None):
+    """the real object, built through its public constructor with an injected Generator; (obj, kernel record) or (None, exc).
+    `how` (Round 5): {"seedkind": what is passed as random_seed instead of a Generator, "call": positional / all keywords /
+    optional keyword left at its default (par must then be the default), "entry": package-level alias of the class,
+    "parcast": n_columns / stencil_length_factor as a NumPy integer}"""
     from aotools.turbulence import infinitephasescreen as ips
+    import aotools
+    how = how or {}
     rec = {}
-    gen = numpy.random.default_rng(seed)
+    gen = numpy.random.default_rng(seed) if how.get("seedkind") is None else seed_argument(how["seedkind"], seed)
     size, px, r0, L0 = typed_args(size, px, r0, L0, cast)
+    name = "PhaseScreenVonKarman" if variant == "vk" else "PhaseScreenKolmogorov"
+    parname = "n_columns" if variant == "vk" else "stencil_length_factor"
+    cls = getattr({"pkg": aotools, "turb": aotools.turbulence}.get(how.get("entry"), ips), name)
+    if how.get("parcast"):
+        par = numpy.int32(par)
+    call = how.get("call")
     try:
         with kernel_spy(rec):
-            if variant == "vk":
-                obj = ips.PhaseScreenVonKarman(size, px, r0, L0, random_seed=gen, n_columns=par)
+            if call == "pos":
+                obj = cls(size, px, r0, L0, gen, par)
+            elif call == "allkw":
+                obj = cls(nx_size=size, pixel_scale=px, r0=r0, L0=L0, random_seed=gen, **{parname: par})
+            elif call == "default":
+                if par != (2 if variant == "vk" else 4):
+                    raise ValueError("harness: call form 'default' needs the default " + parname)
+                obj = cls(size, px, r0, L0, random_seed=gen) if gen is not None else cls(size, px, r0, L0)
             else:
-                obj = ips.PhaseScreenKolmogorov(size, px, r0, L0, random_seed=gen, stencil_length_factor=par)
+                obj = cls(size, px, r0, L0, random_seed=gen, **{parname: par})
     except Exception as ex:      # the caller decides: outside the quantifier only if the configuration is ill-conditioned
         return None, ex
     return obj, rec
@@ -218,6 +257,54 @@ def draw_typed_config(rng, max_size):
         px = float(rng.choice([1, 1, 2, 3]))
         L0 = float(int(px * logu(rng, 6., 250.)) + 1)
         r0 = float(rng.choice([1, 2])) if cast != "mixed" else logu(rng, 0.05, 0.5)
+    return (variant, size, par, px, r0, L0), cast
+
+
+def draw_wide_config(rng, max_size, kind, k=0):
+    """Round 5 — parameter magnitudes and stencil depths draw_config never produces, all inside the stated domain ('all … pixel
+    scales, r0, L0, n_columns / stencil_length_factor for which construction succeeds'); k = running index (strata):
+    coarse: pixels of the order of / larger than the outer scale, L0/pixel in [0.3, 1], [1, 6], [0.02, 0.3] in turn (below 0.25 the
+            covariance between neighbours is < 1e-11·C(0): nearly diagonal, cond ~ 1);
+    scaled: the ordinary sampling ratios at absolute scales from 1e-4 to 1e4 of the usual ones, r0 from 1 mm to 30 m (also > L0);
+    deep:   n_columns 4 … nx+1 (the whole screen and more), stencil_length_factor 5 … 8"""
+    variant = rng.choice(["vk", "fried"])
+    size = rng.randint(1, max_size)
+    par = rng.choice([1, 2, 2, 3]) if variant == "vk" else rng.choice([1, 2, 3, 4, 4])
+    r0 = logu(rng, 0.05, 0.5)
+    L0 = logu(rng, 5., 100.)
+    px = L0 / logu(rng, 6., 250.)
+    if kind == "coarse":
+        px = L0 / logu(rng, *[(0.3, 1.), (1., 6.), (0.02, 0.3)][k % 3])
+    elif kind == "scaled":
+        k = 10. ** rng.choice([-4, -3, -2, 2, 3, 4])
+        px, L0, r0 = px * k, L0 * k, logu(rng, 1e-3, 30.)
+    elif kind == "deep":
+        variant = ("vk", "fried", "vk")[k % 3]
+        size = rng.randint(6, 12) if variant == "vk" else rng.randint(1, min(max_size, 12))
+        par = rng.choice([5, 6, size, size + 1]) if variant == "vk" else rng.choice([5, 6, 8])
+    else:
+        raise ValueError(kind)
+    return variant, size, par, px, r0, L0
+
+
+def draw_typed_config5(rng, max_size):
+    """Round 5 — a configuration exactly representable in the cast's types, and the cast"""
+    cast = rng.choice(CASTS5)
+    variant = rng.choice(["vk", "fried"])
+    size = rng.randint(2, max_size)
+    par = rng.choice([1, 2, 3]) if variant == "vk" else rng.choice([1, 2, 4])
+    if cast == "f16":
+        size = rng.randint(12, max(max_size, 20))          # sizes whose square does not fit the 8-bit integer the size is passed as
+        px = rng.choice([0.125, 0.25, 0.5, 1.0, 2.0])
+        r0 = float(numpy.float16(logu(rng, 0.05, 0.5)))
+        L0 = float(numpy.float16(px * logu(rng, 6., 250.)))
+    elif cast == "pxint32":
+        px = float(rng.choice([1, 1, 2, 3]))
+        L0 = float(int(px * logu(rng, 6., 250.)) + 1)
+        r0 = logu(rng, 0.05, 0.5)
+    else:
+        r0, L0 = logu(rng, 0.05, 0.5), logu(rng, 5., 100.)
+        px = L0 / logu(rng, 6., 250.)
     return (variant, size, par, px, r0, L0), cast
 
 
@@ -478,7 +565,7 @@ def innovation_statistics(obj, variant, A, B, st, nprng, n_rows=N_INNOV):
     return {"bhat": bhat, "P": P, "M": M, "rank": int(keep.sum()), "mean": bhat.mean(0)}, None
 
 
-def oracle_instance(chk, cfg, it, cast=None, stats=True):
+def oracle_instance(chk, cfg, it, cast=None, stats=True, how=None):
     """the property evaluated directly on the real code for one configuration in the stated domain"""
     variant, size, par, px, r0, L0 = cfg
     seed = chk.rng.getrandbits(32)
@@ -490,10 +577,16 @@ def oracle_instance(chk, cfg, it, cast=None, stats=True):
     replay = {"variant": variant, "size": size, "par": par, "pixel_scale": px, "r0": r0, "L0": L0, "seed": seed}
     if cast:
         replay["cast"] = cast
+    if how:
+        replay["how"] = dict(how)
     ta = typed_args(size, px, r0, L0, cast)
     tag = "%s(%s, %s, %s, %s, %s=%d)" % (
         "PhaseScreenVonKarman" if variant == "vk" else "PhaseScreenKolmogorov", repr(ta[0]), repr(ta[1]), repr(ta[2]), repr(ta[3]),
         "n_columns" if variant == "vk" else "stencil_length_factor", par)
+    if how:
+        tag += " [%s]" % ", ".join("%s=%s" % kv for kv in sorted(how.items()))
+        for kv in sorted(how.items()):
+            chk.count("oracle:how:%s=%s" % kv)
 
     def bad(key, what, **extra):
         chk.fail(key, what, dict(replay, **extra))
@@ -504,7 +597,10 @@ def oracle_instance(chk, cfg, it, cast=None, stats=True):
     chk.count("oracle:L0/px<=250" if L0 / px <= 250 else "oracle:L0/px>250")
     chk.count("oracle:cond<=1e6" if cond_ref <= 1e6 else "oracle:cond>1e6")
     chk.case(("oracle", tag), sample=dict(replay) if it < 2 else None)
-    obj, rec = construct(variant, size, par, px, r0, L0, seed, cast)
+    obj, rec = construct(variant, size, par, px, r0, L0, seed, cast, how)
+    if obj is not None and not isinstance(getattr(obj, "_R", None), numpy.random.Generator):
+        chk.broke("correspondence", "%s keeps no numpy Generator in _R: the harness cannot follow its random stream" % tag)
+        return None
     if obj is None:
         bad("construct:%s:%s" % (variant, type(rec).__name__),
             "%s raises %s: %s although Cov(Z,Z) at the true separations is well-conditioned (cond = %.3g): the A, B of the property "
@@ -630,7 +726,7 @@ def oracle_instance(chk, cfg, it, cast=None, stats=True):
     # row that is lost or overwritten some steps later breaks them as surely as a wrong A): more rows than the screen is long, so
     # that any internal buffer wraps around at least twice; the stencil the next row is computed from is taken from the harness's
     # own record of the rows returned so far
-    if length <= 24:
+    if length <= 140:          # Round 5: was 24 — the 128-row von Kármán test configuration and Fried screens up to 33 x 4 included
         obj._scrn = scrn.copy()
         shadow = scrn.copy()
         for step in range(2 * length + 3):
@@ -845,11 +941,113 @@ def oracle_sequence(chk, rng, max_size):
                 break
 
 
-def oracle_types(chk, rng, max_size):
+def oracle_neighbours(chk, rng, max_size):
+    """Round 5 — screens built one after the other in this process that differ from the first one in exactly ONE argument (pixel
+    scale, L0, r0, n_columns / stencil_length_factor, size, class), then the first configuration again: whatever the library keeps
+    between constructions (a cache of separations, covariances, A/B …) must be keyed by everything the matrices depend on.  The
+    full oracle runs on each; afterwards every screen built earlier must still be what it was: matrices bitwise unchanged and a
+    row generated NOW from each of them is still A·Z + B·b of its own matrices, while the others' arrays and streams stay put."""
+    variant, size, par, px, r0, L0 = draw_config(rng, max_size)
+    size = max(size, 3)
+    px = L0 / logu(rng, 6., 120.)
+    f = lambda: rng.choice([0.5, 0.8, 1.25, 2.0])
+    other_par = rng.choice([q for q in ([1, 2, 3] if variant == "vk" else [1, 2, 3, 4]) if q != par])
+    chain = [("base", (variant, size, par, px, r0, L0)),
+             ("pixel_scale", (variant, size, par, px * f(), r0, L0)),
+             ("L0", (variant, size, par, px, r0, L0 * f())),
+             ("r0", (variant, size, par, px, r0 * f(), L0)),
+             ("n_columns" if variant == "vk" else "stencil_length_factor", (variant, size, other_par, px, r0, L0)),
+             ("nx_size", (variant, size + rng.choice([-1, 1]), par, px, r0, L0)),
+             ("class", ("fried" if variant == "vk" else "vk", size, min(par, 3), px, r0, L0)),
+             ("base again", (variant, size, par, px, r0, L0))]
+    built = []
+    for k, (what, cfg) in enumerate(chain):
+        nfail = len(chk.failures)
+        obj = oracle_instance(chk, cfg, 60 + k, stats=False)
+        chk.count("oracle:neighbour:" + what.split()[0])
+        for f_ in chk.failures[nfail:]:
+            f_["what"] += "  [screen %d of a chain built in one process; differs from the first one, %r, in %s only]" % (k + 1, chain[0][1], what)
+            if isinstance(f_.get("replay"), dict):
+                f_["replay"]["chain"] = [c for _, c in chain[:k + 1]]
+        if obj is not None:
+            built.append((cfg, obj, matrices_snapshot(obj)))
+    nprng = numpy.random.default_rng(rng.getrandbits(32))
+    for i, (cfg, obj, snap) in enumerate(built):
+        rep = {"variant": cfg[0], "size": cfg[1], "par": cfg[2], "pixel_scale": cfg[3], "r0": cfg[4], "L0": cfg[5], "chain": [c for _, c in chain]}
+        for name, v in snap.items():
+            if not numpy.array_equal(numpy.asarray(getattr(obj, name)), v):
+                chk.fail("sequence:earlier-screen-changed", "%s of the screen %r changed when the later screens of the chain %r were constructed"
+                         % (name, cfg, [c for _, c in chain]), rep)
+                break
+        others = [(o, numpy.array(o._scrn, copy=True), copy.deepcopy(o._R.bit_generator.state)) for (_, o, _) in built if o is not obj]
+        length, nx = obj._scrn.shape
+        scrn = numpy.round(nprng.normal(0, 3, size=(length, nx)) * 64) / 64
+        b = clone_generator(obj._R).standard_normal(nx)
+        row, _, _ = real_row(obj, scrn, copy.deepcopy(obj._R.bit_generator.state))
+        A, B, st = snap["A_mat"], snap["B_mat"], snap["stencil_coords"]
+        Z = scrn[st[:, 0], st[:, 1]]
+        ref = scrn[1, 1] if cfg[0] == "fried" else 0.0
+        want = A @ (Z - ref) + B @ b + ref
+        scale = numpy.abs(A) @ (numpy.abs(Z) + abs(ref)) + numpy.abs(B) @ numpy.abs(b) + abs(ref)
+        if row.shape != want.shape or not (numpy.abs(row - want) <= 1e-11 * scale + 1e-300).all():
+            chk.fail("sequence:earlier-screen-row:" + cfg[0], "after the chain %r was constructed, screen %d of it (%r) no longer generates "
+                     "A_mat·Z + B_mat·b from its own matrices and stream (max |Δ| = %.3g)"
+                     % ([c for _, c in chain], i + 1, cfg, float(numpy.abs(row - want).max()) if row.shape == want.shape else float("nan")), rep)
+        for o, scr, state in others:
+            if not (numpy.array_equal(o._scrn, scr) and o._R.bit_generator.state == state):
+                chk.fail("sequence:sibling-touched", "add_row() on screen %r changed the array or the random stream of another screen built "
+                         "in the same process (chain %r)" % (cfg, [c for _, c in chain]), rep)
+                break
+
+
+def oracle_caller_arrays(chk, rng, max_size):
+    """Round 5 — the caller's own 0-d arrays for pixel_scale, r0, L0 handed to TWO constructions (and a few add_row) one after the
+    other, as a simulation does that keeps its parameters in arrays: the arrays must still hold the caller's numbers afterwards, and
+    the second screen must satisfy the identities for those numbers (full oracle on a third construction is not needed: the second
+    object's matrices must equal the first's bit for bit — same arguments, same process)."""
+    from aotools.turbulence import infinitephasescreen as ips
+    variant, size, par, px, r0, L0 = draw_config(rng, max_size)
+    px = L0 / logu(rng, 6., 120.)
+    _, _, cond_ref = reference_sigma(variant, size, par, px, r0, L0)
+    if not cond_ref <= MAX_COND:
+        chk.count("oracle:ill-conditioned-skipped")
+        return
+    apx, ar0, aL0 = numpy.array(px), numpy.array(r0), numpy.array(L0)
+    cls = ips.PhaseScreenVonKarman if variant == "vk" else ips.PhaseScreenKolmogorov
+    kw = {"n_columns" if variant == "vk" else "stencil_length_factor": par}
+    replay = {"variant": variant, "size": size, "par": par, "pixel_scale": px, "r0": r0, "L0": L0, "kind": "caller-arrays"}
+    tag = "%s(%d, array(%r), array(%r), array(%r), %s)" % (cls.__name__, size, px, r0, L0, kw)
+    chk.oracle_cases += 1
+    chk.count("oracle:caller-arrays")
+    chk.case(("oracle-caller-arrays", tag))
+    objs = []
+    for k in range(2):
+        try:
+            o = cls(size, apx, ar0, aL0, random_seed=numpy.random.default_rng(5), **kw)
+            o.add_row()
+        except Exception as ex:
+            chk.fail("construct:%s:%s" % (variant, type(ex).__name__), "%s raises %s: %s on construction number %d with the same argument "
+                     "arrays (cond = %.3g)" % (tag, type(ex).__name__, str(ex)[:120], k + 1, cond_ref), replay)
+            return
+        objs.append(o)
+        if not (apx.shape == ar0.shape == aL0.shape == () and float(apx) == px and float(ar0) == r0 and float(aL0) == L0):
+            chk.fail("caller-array-changed:" + variant, "%s: after construction number %d (+ one add_row) the caller's argument arrays hold "
+                     "pixel_scale=%r r0=%r L0=%r instead of %r %r %r" % (tag, k + 1, apx.tolist(), ar0.tolist(), aL0.tolist(), px, r0, L0), replay)
+            return
+    for name in ("A_mat", "B_mat", "cov_mat"):
+        if not numpy.array_equal(numpy.asarray(getattr(objs[0], name)), numpy.asarray(getattr(objs[1], name))):
+            chk.fail("caller-array-reuse:" + variant, "%s: %s of the second screen built from the same argument arrays differs from the "
+                     "first one's" % (tag, name), replay)
+            return
+    # and the first one is the screen of those numbers: the whole oracle on the typed twin
+    oracle_instance(chk, (variant, size, par, px, r0, L0), 75, cast="zerod", stats=False)
+
+
+def oracle_types(chk, rng, max_size, draw=None):
     """the numbers of a configuration handed over as Python int / numpy integer / float32: the property speaks about the pixel
     scale, r0, L0 as numbers — the same numbers must give the same screen.  The full oracle runs on the typed object; then A, B
     and a row are compared with the twin built from the same numbers as Python floats."""
-    cfg, cast = draw_typed_config(rng, max_size)
+    cfg, cast = (draw or draw_typed_config)(rng, max_size)
     _, _, cond_ref = reference_sigma(*cfg)
     if not cond_ref <= MAX_COND:
         chk.count("oracle:ill-conditioned-skipped")
@@ -877,6 +1075,56 @@ def oracle_types(chk, rng, max_size):
                      "floats: max |Δ| = %.3g (scale %.3g)" % ((name,) + ta + (float(numpy.abs(x - y).max()) if x.shape == y.shape
                                                                              else float("nan"), sc)), replay)
             break
+
+
+BOUNDARY = [("vk", 6, 2, 2.0, 2.0, 2.0), ("fried", 9, 2, 1.0, 0.5, 1.0), ("vk", 7, 7, 0.5, 0.5, 8.0), ("fried", 17, 1, 0.25, 16.0, 16.0),
+            ("fried", 16, 1, 0.25, 0.25, 16.0), ("vk", 1, 1, 1.0, 1.0, 1.0), ("fried", 1, 1, 1.0, 1.0, 1.0), ("fried", 3, 1, 4.0, 0.125, 2.0),
+            ("vk", 9, 1, 2.0 ** -10, 2.0 ** -4, 2.0 ** -3)]
+
+
+def round5(chk, quick):
+    """Round 5 (generator audit): input classes and construction histories the generators above never produce.  They draw from a
+    generator of their own (a function of VERIF_SEED only): the cases of the earlier rounds stay what they were for every seed."""
+    import random
+    rng = random.Random(chk.seed * 1000003 + 40404)
+    max_or = 16 if quick else 40
+    # magnitudes and stencil depths (tolerances unchanged; observed on the unchanged tree over 12 seeds, largest observed / allowed:
+    # sigma 0.0047, identity1 0.0012, identity2 0.0079 — coarse pixels make cond = 1, where the floor 5e-13·C(0) applies)
+    for kind, n in (("coarse", 4), ("scaled", 5), ("deep", 5)) if quick else (("coarse", 80), ("scaled", 80), ("deep", 80)):
+        for it in range(n):
+            oracle_instance(chk, draw_wide_config(rng, max_or, kind, it), 40 + it, stats=it < 2 or not quick)
+            chk.count("oracle:wide:" + kind)
+    # equal / exactly representable boundary values: pixel = r0 = L0, r0 = L0, r0 = pixel, n_columns = nx, 1-pixel screens, powers of two
+    for it, cfg in enumerate(BOUNDARY if quick else BOUNDARY + [(v, n, p, px, r0, L0) for (v, _, p, px, r0, L0) in BOUNDARY for n in (2, 5)]):
+        oracle_instance(chk, cfg, 55, stats=False)
+        chk.count("oracle:boundary")
+    # random_seed as everything default_rng accepts, call forms, package-level names, NumPy-integer n_columns: every class once
+    # per run on its own, then combinations; the whole oracle (innovation statistics of the object's OWN generator included)
+    singles = [{"seedkind": v} for v in SEED_KINDS] + [{"call": v} for v in CALL_FORMS] + [{"entry": v} for v in ENTRIES] + [{"parcast": True}]
+    for it in range(len(singles) + (4 if quick else 100)):
+        how = dict(singles[it]) if it < len(singles) else {k: rng.choice(pool) for k, pool in
+                                                          (("seedkind", SEED_KINDS), ("call", CALL_FORMS), ("entry", ENTRIES), ("parcast", (True, False)))
+                                                          if rng.random() < 0.7}
+        variant, size, par, px, r0, L0 = draw_config(rng, 10 if quick else 24)
+        px = L0 / logu(rng, 6., 250.)
+        if how.get("call") == "default":
+            par = 2 if variant == "vk" else 4
+        how = {k: v for k, v in how.items() if v}
+        oracle_instance(chk, (variant, size, par, px, r0, L0), 80 + it, how=how, stats="seedkind" in how)
+    # the numbers as NumPy doubles / 0-d arrays / half precision / 32-bit integers (full oracle + comparison with the float twin)
+    for _ in range(8 if quick else 100):
+        oracle_types(chk, rng, 12 if quick else 24, draw=draw_typed_config5)
+    # the caller's own 0-d arrays reused for a second construction
+    for _ in range(3 if quick else 30):
+        oracle_caller_arrays(chk, rng, 12 if quick else 24)
+    # screens that differ in exactly one argument, built one after the other; earlier ones must keep working
+    for _ in range(3 if quick else 40):
+        oracle_neighbours(chk, rng, 12 if quick else 24)
+    # sizes beyond the 128 / 129 pixels of the repository's test configuration
+    for cfg in [("vk", 136, 2, 0.25, 0.2, 20.)] if quick else [("vk", 136, 2, 0.25, 0.2, 20.), ("fried", 130, 1, 0.25, 0.2, 20.),
+                                                            ("fried", 200, 2, 0.2, 0.15, 30.), ("vk", 257, 1, 0.5, 0.2, 20.)]:
+        oracle_instance(chk, cfg, 97, stats=False)
+        chk.count("oracle:size>129")
 
 
 def run(chk):
@@ -957,6 +1205,7 @@ def run(chk):
         oracle_sequence(chk, chk.rng, 16 if quick else 33)
     for _ in range(10 if quick else 120):
         oracle_types(chk, chk.rng, 12 if quick else 24)
+    round5(chk, quick)
     # the repository's own test configuration (test/test_infinitephasescreen.py: 128 pixels, pixel_scale 4/64, r0 0.2, L0 50)
     for cfg in BIG:
         oracle_instance(chk, cfg, 98)
